@@ -40,7 +40,7 @@ def resp_type(rng):
 
 def intern_type(prog, ty):
     for i, t in enumerate(prog["types"]):
-        if t.rust == ty.rust:
+        if (t.rust, t.trait_rust, t.concrete) == (ty.rust, ty.trait_rust, ty.concrete):
             return i
     prog["types"].append(ty)
     return len(prog["types"]) - 1
@@ -296,4 +296,128 @@ def gen_ep_config_program(rng, name, overrides, migrate, reply, replies_feature)
                                           "legacy": True, "args": [], "ret_err": "own"})
     p["overrides"] = [{"kind": k, "fn": f"ov_{k}", "msg": ("Reply" if k == "reply" else "svmon::OvMsg")} for k in overrides]
     p["ep_config"] = {"overrides": list(overrides), "migrate": migrate, "reply": reply}
+    return p
+
+
+# ---------------------------------------------------------------- generics (C15)
+
+def used_params(prog, part, kind):
+    """Generic parameters (contract) / associated types (interface) that occur in the arguments
+    (and, for queries, the response types) of the part's handlers of `kind`; order of first occurrence."""
+    if part["id"] == "c":
+        domain = [g["name"] for g in prog.get("generics") or []]
+    else:
+        domain = [n for n, _ in part.get("assoc", [])]
+    out = []
+    for h in part["handlers"]:
+        if h["kind"] != kind:
+            continue
+        tis = [a["ti"] for a in h["args"]]
+        if kind == "query":
+            tis.append(h["resp_ti"])
+        for ti in tis:
+            for n in T.params_in(prog["types"][ti]):
+                if n in domain and n not in out:
+                    out.append(n)
+    return out
+
+
+GENERIC_NAMES = ["T1", "ExecT", "QueryT", "ParamT", "RespT", "FieldT", "ItemT", "T2"]
+ASSOC_NAMES = ["ParamA", "RespB", "ItemC", "KeyD"]
+GENERIC_CONCRETE = [T.U32, T.STRING, T.UINT128, T.PT, T.SHAPE, T.BOOL, T.COIN, T.I64, T.BINARY]
+
+
+def _wrap_param(rng, base):
+    c = rng.random()
+    if c < 0.5:
+        return base
+    if c < 0.65:
+        return T.option(base)
+    if c < 0.8:
+        return T.vec(base)
+    if c < 0.9:
+        return T.tup(base, rng.choice([T.U32, T.STRING]))
+    return T.btmap(base)
+
+
+def gen_generic_program(rng, name, n_generics=None, n_ifaces=None, iface_assoc=True):
+    """A generic contract (type parameters used directly / nested / only in a query response / not at all)
+    with interfaces that may carry associated types."""
+    p = gen_program(rng, name, n_ifaces=rng.choice([0, 1, 2]) if n_ifaces is None else n_ifaces)
+    ng = rng.choice([1, 2, 3, 4]) if n_generics is None else n_generics
+    names = rng.sample(GENERIC_NAMES, ng)
+    concs = rng.sample(GENERIC_CONCRETE, ng)
+    p["generics"] = [{"name": n, "concrete": c.concrete} for n, c in zip(names, concs)]
+    gp = {n: T.generic_param(n, c) for n, c in zip(names, concs)}
+    c = p["parts"][0]
+    unused = set(rng.sample(names, rng.choice([0, 0, 1]))) if ng > 1 else set()
+    resp_only = set()
+    cand = [n for n in names if n not in unused]
+    if len(cand) > 1 and rng.random() < 0.5:
+        resp_only = {rng.choice(cand)}
+    for h in c["handlers"]:
+        if h["kind"] == "reply":
+            continue
+        for a in h["args"]:
+            usable = [n for n in names if n not in unused and n not in resp_only]
+            if usable and rng.random() < 0.45:
+                a["ti"] = intern_type(p, _wrap_param(rng, gp[rng.choice(usable)]))
+        if h["kind"] == "query":
+            usable = [n for n in names if n not in unused]
+            if usable and rng.random() < 0.5:
+                n = rng.choice(sorted(resp_only) or usable)
+                t = _wrap_param(rng, gp[n])
+                if t.kind != "tuple":
+                    h["resp_ti"] = intern_type(p, t)
+    # make sure a resp_only parameter really is used by some query
+    for n in resp_only:
+        qs = [h for h in c["handlers"] if h["kind"] == "query"]
+        if not qs:
+            nm = "get_" + n.lower()
+            qs = [_new_handler(rng, p, c, "query", nm, False)]
+            c["handlers"].append(qs[0])
+        qs[0]["resp_ti"] = intern_type(p, gp[n])
+    # A bound relating two parameters: the (single) predicate of `a` mentions `b`, so a message type that
+    # uses `a` but not `b` must drop it.  sylvia accepts one `Ident: Bounds` predicate per parameter (it
+    # derives helper-trait items from them), and the instantiate builder needs `a: Serialize` from that
+    # predicate; so `a` may not occur in instantiate without `b` (DESIGN limits).  To make the filter
+    # matter, a migrate handler takes `a` and not `b`.
+    if ng >= 2 and rng.random() < 0.7:
+        a, b = rng.sample(names, 2)
+        inst_used = used_params(p, c, "instantiate")
+        if not (a in inst_used and b not in inst_used):
+            next(g for g in p["generics"] if g["name"] == a)["extra_bound"] = f"svmon::Rel<{b}>"
+            mig = [h for h in c["handlers"] if h["kind"] == "migrate"]
+            if not mig:
+                mig = [_new_handler(rng, p, c, "migrate", "migrate_to_v2", False)]
+                c["handlers"].append(mig[0])
+            mig[0]["args"] = [x for x in mig[0]["args"] if b not in T.params_in(p["types"][x["ti"]])]
+            mig[0]["args"].append({"name": "rel_arg", "ti": intern_type(p, _wrap_param(rng, gp[a]))})
+    # interfaces with associated types
+    for part in p["parts"][1:]:
+        if not iface_assoc or rng.random() < 0.3:
+            continue
+        na = rng.choice([1, 2])
+        an = rng.sample(ASSOC_NAMES, na)
+        part["assoc"], part["assoc_concrete"] = [], []
+        at = {}
+        for nme in an:
+            if names and rng.random() < 0.4:
+                g = gp[rng.choice(names)]
+                bound_rust, conc, base = g.rust, g.concrete, g
+            else:
+                base = rng.choice(GENERIC_CONCRETE)
+                bound_rust, conc = base.rust, base.concrete
+            part["assoc"].append((nme, bound_rust))
+            part["assoc_concrete"].append((nme, conc))
+            t = T.assoc_type(nme, base)
+            at[nme] = t
+        for h in part["handlers"]:
+            for a in h["args"]:
+                if rng.random() < 0.5:
+                    a["ti"] = intern_type(p, _wrap_param(rng, at[rng.choice(an)]))
+            if h["kind"] == "query" and rng.random() < 0.5:
+                t = _wrap_param(rng, at[rng.choice(an)])
+                if t.kind != "tuple":
+                    h["resp_ti"] = intern_type(p, t)
     return p
